@@ -101,6 +101,14 @@ def check_batches(ctx, hyruns, n, nb, sites):
     batches = []
     for ib in range(nb):
         try:
+            # history: the caller may do anything with an earlier result; ask once, scribble on the returned
+            # array, ask again - the second answer is the one that is judged
+            b0 = hyruns.get_batch(n, nb, ib)
+            try:
+                b0 += 1000003
+                b0[...] = -7
+            except Exception:
+                pass
             b = hyruns.get_batch(n, nb, ib)
             lst = [int(v) for v in b]
             if any(int(v) != v for v in b):
